@@ -504,6 +504,14 @@ class Evaluator(object):
                         isinstance(right, Sym) and right.pytype is str and getattr(right, "keys", None) is None:
                     # a substring test on a text nobody knows: undecided, both outcomes are explored
                     return Sym("opaque:%r %s %s" % (left.v, "in" if isinstance(op, ast.In) else "not in", right.label))
+                if self.lenient and len(e.ops) == 1 and isinstance(left, Sym) and left.label.startswith("len(") and left.truthy is True and \
+                        isinstance(right, K) and right.v == 0 and type(right.v) is int and isinstance(op, (ast.Gt, ast.GtE, ast.Lt, ast.LtE, ast.Eq, ast.NotEq)):
+                    return K(isinstance(op, (ast.Gt, ast.GtE, ast.NotEq)))      # len(<non-empty>) compared with 0
+                if self.lenient and len(e.ops) == 1 and isinstance(op, (ast.Lt, ast.LtE, ast.Gt, ast.GtE)) and \
+                        any(isinstance(x_, Sym) and x_.rep is None for x_ in (left, right)) and \
+                        all(isinstance(x_, (Sym, K)) for x_ in (left, right)):
+                    # an ordering test on a value nobody knows (a length, a size): undecided, both outcomes are explored
+                    return Sym("opaque:%s <cmp> %s" % (getattr(left, "label", left), getattr(right, "label", right)))
                 r = self.compare(op, left, right, e)
                 if not r:
                     return K(False)
@@ -781,6 +789,11 @@ class Evaluator(object):
                 return L(list(a0.elts))
             if isinstance(a0, K) and not isinstance(a0.v, (str, bytes, dict, set, frozenset)):
                 raise _Raise("TypeError")        # tuple(5), tuple(None): not iterable
+        if fname == "issubclass" and len(args) == 2 and not kwargs and isinstance(args[0], (D, L, K)) and \
+                not (isinstance(args[0], K) and isinstance(args[0].v, str) and args[0].v.startswith(("type:", "class:"))):
+            raise _Raise("TypeError")       # issubclass() of something that is not a class (a dict / list / scalar value)
+        if fname in ("inspect.isclass", "isclass") and len(args) == 1 and not kwargs and isinstance(args[0], Opaque) and "class" in args[0].label.lower():
+            return K(True)          # (the stand-in a rule uses for a class)
         if fname in ("inspect.getmro", "getmro") and len(args) == 1 and isinstance(args[0], Opaque) and "__mro__" in args[0].attrs:
             return args[0].attrs["__mro__"]         # an abstract class built by a rule carries its linearisation
         if fname == "vars" and len(args) == 1 and isinstance(args[0], Opaque) and "__dict__" in args[0].attrs and \
@@ -799,6 +812,9 @@ class Evaluator(object):
                 self.prog.resolve(fi.module, f) in (None, "builtin:" + fname):
             # pure builtins over iterables: the result is an opaque sequence (whether they can raise is E4's question)
             return Sym("opaque:%s(...)" % fname)
+        if isinstance(f, ast.Attribute) and f.attr == "join" and isinstance(f.value, ast.Constant) and isinstance(f.value.value, str) and \
+                len(args) == 1 and isinstance(args[0], L) and all(isinstance(x_, K) and isinstance(x_.v, str) for x_ in args[0].elts):
+            return K(f.value.value.join(x_.v for x_ in args[0].elts))        # a list of constant strings built step by step
         if isinstance(f, ast.Attribute) and f.attr == "join" and isinstance(f.value, ast.Constant) and isinstance(f.value.value, str) and \
                 len(args) == 1 and not isinstance(args[0], (K, L)):
             return Sym("joined-string", pytype=str)
@@ -869,6 +885,9 @@ class Evaluator(object):
             return D(dict(args[0].items))
         if fname == "len" and len(args) == 1 and isinstance(args[0], (D, L)):
             return K(len(args[0].items) if isinstance(args[0], D) else len(args[0].elts))
+        if fname == "len" and len(args) == 1 and isinstance(args[0], Sym) and self.lenient and args[0].pytype in (str, bytes, list, dict, tuple, None):
+            # the length of a symbolic value: positive when the value is known to be true (a non-empty text / container)
+            return Sym("len(%s)" % args[0].label, truthy=args[0].truthy, pytype=int)
         if fname == "len" and len(args) == 1 and isinstance(args[0], K):
             try:
                 return K(len(args[0].v))
@@ -1007,6 +1026,10 @@ class Evaluator(object):
                 return self._call(m, bound, base)
             if f.attr == "get" and isinstance(base, D) and args and isinstance(args[0], K):
                 return base.items.get(args[0].v, args[1] if len(args) > 1 else K(None))
+            if f.attr == "get" and isinstance(base, D) and args and isinstance(args[0], (Sym, Opaque)) and \
+                    not any(v_ is args[0] for v_ in base.items.values()) and all(not isinstance(k_, (Sym, Opaque)) for k_ in base.items):
+                # a symbolic key is distinct from every constant key of an abstract dictionary: the default
+                return args[1] if len(args) > 1 else K(None)
             if f.attr == "get" and isinstance(base, Sym) and getattr(base, "keys", None) is not None and isinstance(args[0], K):
                 if args[0].v in base.keys:
                     return base.keys[args[0].v]
